@@ -1,0 +1,8 @@
+//go:build verif
+
+package cronschedule
+
+// VerifSnapshot exposes the schedule heap for conformance checking.
+func (s *Schedule) VerifSnapshot() (names []string, priorities []int, index map[string]int) {
+	return s.jobConfigs.VerifSnapshot()
+}
